@@ -99,14 +99,25 @@ where
         rep.counters.insert("cross_run_only".into(), 1);
         return rep;
     }
-    let r = reference(&pd, h, t, reduced, R::MODULUS);
-    if r.orientation_ambiguous {
-        rep.counters.insert("orientation_ambiguous_cross_run_only".into(), 1);
+    // a component that never passes under a crossing may be oriented either way by the library:
+    // the answer must agree with the definition for ONE of those orientations (all other signs
+    // are forced)
+    let refs = references(&pd, h, t, reduced, R::MODULUS);
+    if refs.len() > 1 { rep.counters.insert("orientation_ambiguous_any_of".into(), 1); }
+    rep.counters.insert("compared_with_reference".into(), 1);
+    let matches = |r: &RefKh| -> bool {
+        if g != r.graded { return false; }
+        if let (Some((Ok(b1), Ok(b2))), Some(rb)) = (&big, &r.bigraded) {
+            if b2 != rb || b1 != rb { return false; }
+        }
+        true
+    };
+    if refs.iter().any(|r| matches(r)) {
         return rep;
     }
-    rep.counters.insert("compared_with_reference".into(), 1);
+    let r = &refs[0];
     if g != r.graded {
-        rep.violation = Some(Violation::new("differs-from-cube", format!("library: {} ; cube of resolutions: {}", describe_graded(&g), describe_graded(&r.graded))));
+        rep.violation = Some(Violation::new("differs-from-cube", format!("library: {} ; cube of resolutions: {}{}", describe_graded(&g), describe_graded(&r.graded), if refs.len() > 1 { " (nor for any orientation of the over-only components)" } else { "" })));
         return rep;
     }
     if let (Some((Ok(b1), Ok(b2))), Some(rb)) = (&big, &r.bigraded) {
@@ -115,6 +126,9 @@ where
         } else if b1 != rb {
             rep.violation = Some(Violation::new("bigraded-differs-from-cube", format!("library (total homology split by q): {} ; cube: {}", describe_bigraded(b1), describe_bigraded(rb))));
         }
+    }
+    if rep.violation.is_none() {
+        rep.violation = Some(Violation::new("differs-from-cube", "no single orientation of the over-only components explains both the graded and the bigraded answer".to_string()));
     }
     rep
 }
@@ -132,7 +146,7 @@ impl Check for C01 {
         vec![
             "rayon executor semantics modelled by the shim".into(),
             "reduced theory: base point = smallest edge label of the first listed crossing (the library's documented choice)".into(),
-            "diagrams with a component that never passes under a crossing are compared across runs only (their orientation is a free choice of the library)".into(),
+            "a component that never passes under a crossing may be oriented either way: the answer must match the definition for one of those orientations".into(),
             "an arithmetic-overflow panic with i64 coefficients is not counted (machine integers are not Z); BigInt runs cover those inputs".into(),
             "inputs sampled, not enumerated".into(),
         ]
@@ -144,10 +158,14 @@ impl Check for C01 {
     fn runs(&self, tier: &str) -> u64 { if tier == "quick" { 20_000 } else { 1_000_000 } }
     fn gen_case(&self, rng: &mut Rng, _idx: u64, tier: &str) -> Value {
         let max_x = if tier == "quick" { 9 } else { 11 };
-        let (name, pd) = diag::draw(rng, max_x);
+        // ~1% big diagrams (cross-run oracle only); thorough adds a few giant ones
+        let big = rng.chance(1, if tier == "quick" { 150 } else { 100 });
+        let giant = tier != "quick" && rng.chance(1, 4000);
+        let (name, pd) = if giant { diag::draw_giant(rng) } else if big { diag::draw_big(rng, tier != "quick") } else { diag::draw(rng, max_x) };
         let pd = diag::permute_crossings(rng, &pd);
-        let ring = *rng.pick(&["Z", "Z", "ZB", "Q", "F2", "F3"]);
+        let ring = if big || giant { *rng.pick(&["Z", "ZB", "F2", "F3"]) } else { *rng.pick(&["Z", "Z", "ZB", "Q", "F2", "F3"]) };
         let (mut h, mut t) = draw_ht(rng);
+        if big || giant { h = 0; t = 0; }
         if ring == "Z" && pd.len() > 7 && (h.abs() > 1 || t.abs() > 1) { h = 1; t = 0; }
         let reduced = t == 0 && !pd.is_empty() && rng.chance(1, 3);
         // the cube-of-resolutions reference costs ~0.5 s per new 10-crossing input: thorough only
